@@ -290,6 +290,18 @@ def w_inverse(ctx, rng, i):
         opt = "own_trilist_differs=%s" % (not np.array_equal(np.sort(tl2, axis=None), np.sort(s.trilist, axis=None)))
     else:
         t, _ = tx.make(rng, kind, d)
+        from menpo.transform.piecewiseaffine.base import AbstractPWA as _APWA
+        if isinstance(t, _APWA) and rng.random() < 0.5:
+            # earlier in the same process the reverse warp was fitted directly (the target points as a source of their own, with
+            # their own triangulation): nothing of that may reach the inverse taken now
+            import menpo.shape as _ms4
+            try:
+                with taps.quiet():
+                    rev_ = type(t)(_ms4.PointCloud(np.asarray(t.target.points, dtype=float).copy()), _ms4.PointCloud(np.asarray(t.source.points, dtype=float).copy()))
+                    rev_.apply(np.asarray(t.target.points, dtype=float)[:3].copy())
+                ctx.bump("reverse_warp_fitted_directly_before")
+            except Exception:
+                pass
         how = None
         if isinstance(t, mt.Homogeneous) and rng.random() < 0.25 and not kind.startswith("Int"):
             # the "try in place, fall back to a new object" idiom with a partner of a foreign class: refused, or - whatever
